@@ -21,15 +21,15 @@ type ZRec struct {
 
 // Zone is the universe of DNS data behind the fake DoH server.
 type Zone struct {
-	mu      sync.Mutex
-	A       map[string][]ZRec
-	AAAA    map[string][]ZRec
-	CNAME   map[string]ZRec
-	HTTPS   map[string][]ZRec
-	RCode   map[string]int // key name|type -> forced RCODE (no answers)
-	HTTPErr map[string]int // key name|type -> HTTP status to answer with
-	Poison  []PoisonRec    // records for unrelated owners mixed into every answer
-	Version int
+	mu          sync.Mutex
+	A           map[string][]ZRec
+	AAAA        map[string][]ZRec
+	CNAME       map[string]ZRec
+	HTTPS       map[string][]ZRec
+	RCode       map[string]int // key name|type -> forced RCODE (no answers)
+	HTTPErr     map[string]int // key name|type -> HTTP status to answer with
+	Poison      []PoisonRec    // records for unrelated owners mixed into every answer
+	Version     int
 	PoisonFirst bool
 }
 
